@@ -512,7 +512,11 @@ func c10Run(c *c10Case, rep *kit.Report) (sigs [][2]string) {
 
 func TestVerifC10(t *testing.T) {
 	slog.SetDefault(slog.New(slog.NewTextHandler(io.Discard, nil)))
-	debug.SetGCPercent(400)
+	debug.SetGCPercent(200)
+	// the process runs under an address-space limit of 2 GiB (a decoder that allocates by a count from the file dies
+	// there). The harness's own garbage must never get near it, whatever the machine load does to GC pacing (seen
+	// once on a heavily loaded machine: 870 MB of garbage, "out of memory" in innocent code): a soft limit far below.
+	debug.SetMemoryLimit(512 << 20)
 	rep := kit.NewReport("C10")
 	cfg := rep.Cfg()
 	defer rep.Flush()
